@@ -1,6 +1,7 @@
 """C19 - aggregate shortcuts lower to equivalent folds."""
-from vlib import chrun, report
-from vlib.harness import base
+from vlib import chrun, report, tvrun
+from vlib.harness import base, tvbase
+from vlib.skel import sources
 
 PROP = "C19"
 
@@ -13,24 +14,37 @@ def s_jobs(tier):
                             "{len,Count,Sum,Max,Min} and exactly one positional argument and no keyword)")]
 
 
+def t_units(tier):
+    N = 3 if tier == "quick" else 6
+    us, n = tvbase.source_units(sources.AGG, ("x", "y"), "aggregate", N, "aggregate-family", nchunks=24)
+    # generic grammar programs containing Count / Sum / Max / len in arbitrary positions
+    mp = 8 if tier == "quick" else 10
+    for a in range(3):
+        us.append(dict(kind="grammar", form="fn", feats=["count", "sum", "first", "tuple"], stages=2, depth=2, maxpicks=mp, fixed=[a], schemes=["reuse"],
+                       transformer="aggregate", N=min(N, 4)))
+    for i in range(8 if tier == "quick" else 32):
+        us.append(dict(kind="random", seed=report.seed() * 100 + i, count=100 if tier == "quick" else 600, form="fn", feats=["count", "sum", "first", "tuple", "bool", "ifexp"],
+                       stages=2, depth=3, maxpicks=20, scheme="reuse", transformer="aggregate", N=min(N, 4)))
+    return us, n
+
+
 def run(tier):
-    r = report.Run(PROP, tier, "other")
+    r = report.Run(PROP, tier, "translation_validation")
     r.assumptions += base.S_ASSUME
     so = chrun.run_jobs(s_jobs(tier))
     chrun.fold_into(r, so)
-    base.finish_s(r, so,
-                  rule="one evaluation = one CrossHair execution path (a distinct sequence of branch decisions of the real code on symbolic inputs); "
-                       "non-trivial = the path satisfied the preconditions and reached the call into func_adl (counted by the harness)",
-                  explanation="bounded symbolic execution (CrossHair/z3) of func_adl.ast.aggregate_shortcuts.aggregate_node_transformer "
-                              "with symbolic name/argument-count/keyword-count in 8 syntactic positions; verdict 'confirmed over all paths' per partition")
-    r.coverage["functions_executed_symbolically"] = ["func_adl.ast.aggregate_shortcuts.aggregate_node_transformer.visit_Call", "func_adl.ast.aggregate_shortcuts._generate_count_call"]
-    r.coverage["bounds"] = {"name_len": 5, "positional_args": [0, 3], "keywords": [0, 1], "positions": 8}
+    base.finish_s(r, so, rule=base.S_RULE,
+                  explanation="S part: bounded symbolic execution of aggregate_node_transformer with symbolic name/argument-count/keyword-count in 8 syntactic positions")
+    r.coverage["bounds_s"] = {"name_len": 5, "positional_args": [0, 3], "keywords": [0, 1], "positions": 8}
+    us, n = t_units(tier)
+    res = tvrun.run_units(us)
+    tvrun.fold_into(r, res, "aggregate_node_transformer on %d family instances + grammar/random programs with shortcuts; the emitted Aggregate folds are evaluated by R's left fold" % n)
+    tvbase.finish_t(r, tier, ["func_adl.ast.aggregate_shortcuts.aggregate_node_transformer.visit_Call", "_generate_count_call"],
+                    {"N_collection_length": 3 if tier == "quick" else 6, "integer_values": "unbounded"})
     return r.finish()
 
 
 def replay(payload):
-    rp = chrun.replay_native(payload["harness"], payload["fn"], payload["argstr"])
-    print(rp)
-    if "raised" in rp or "error" in rp:
-        return 3
-    return 1 if rp.get("returned") else 0
+    if payload.get("engine") == "T":
+        return tvrun.replay_payload(payload)
+    return base.s_replay(payload)
